@@ -259,7 +259,7 @@ def run(ctx: Ctx):
                        "BuildFile.xml is a fragment: parsed inside a synthetic root element"]
     for be in BACKENDS:
         cxx.std_model(be)
-    total = ctx.n(320, 6400)
+    total = ctx.n(512, 6400)
     shards = 16
     payloads = [(derive_seed(ctx.seed, "C02", i), max(1, total // shards), ctx.deadline, BACKENDS[i % 3]) for i in range(shards)]
     for st_ in run_shards("vf.props.C02", "worker", payloads):
